@@ -271,7 +271,12 @@ def thaw(fr, world):
     if fr["k"] == "nd":
         return np.array(fr["a"])
     if fr["k"] == "MD":
-        return Q["md"].MultinomialDistribution(np.array(fr["ps"]), shape=tuple(fr["shape"]), eps_zero=fr["eps"])
+        md = Q["md"].MultinomialDistribution(np.array(fr["ps"]), shape=tuple(fr["shape"]), eps_zero=fr["eps"])
+        if not np.array_equal(md.ps, fr["ps"]):
+            # the constructor re-normalises a distribution that has zero entries: an ulp of difference would make seeded sampling
+            # differ between the two worlds - the copy must be value-identical bit for bit
+            md._ps = np.array(fr["ps"])
+        return md
     if fr["k"] == "Ens":
         return Q["se"].StateEnsemble([thaw(x, world) for x in fr["states"]], thaw(fr["pd"], world), eps_zero=fr["eps"])
     c = world.csys(fr["cs"])
@@ -1721,7 +1726,9 @@ def chk_derived(ctx, case):
         return
     if digest(obj) != d0:
         ctx.violation("derived", site_g, "mutates-argument", "%s changed its object" % g, case)
-    for sig, msg in independence(d, [("the object it was derived from", arrays_of(obj))]):
+    # (generate_from_var adopts the variable vector handed to it - the constructor exception of the property - and to_var() of an
+    #  object without parameter constraint hands out its vector: that chain may alias, no quara operation writes through it)
+    for sig, msg in independence(d, [] if g == "generate_from_var(to_var)" else [("the object it was derived from", arrays_of(obj))]):
         ctx.violation("derived", site_g, sig, "%s of pool object %s: %s" % (g, case["key"], msg), case)
     dk = type(d).__name__
     if dk not in UNARY or dk in ("MD", "Ens"):
